@@ -94,12 +94,14 @@ pub struct ChunkState {
     pub interrupt_from: Option<usize>,
     interrupted_at: Option<usize>,
     pub interrupts: usize,
+    /// REAL time that passes before the reads with these (0-based) indices return: a slow peer
+    pub sleep_before_read: Vec<(usize, u64)>,
 }
 
 impl ChunkState {
     pub fn new(data: Vec<u8>, cuts: Vec<usize>) -> Self {
         let read_limit = data.len() + cuts.len() + 64;
-        ChunkState { data, pos: 0, cuts, reads: 0, read_limit, bound_exceeded: false, fail_at_end: None, interrupt_from: None, interrupted_at: None, interrupts: 0 }
+        ChunkState { data, pos: 0, cuts, reads: 0, read_limit, bound_exceeded: false, fail_at_end: None, interrupt_from: None, interrupted_at: None, interrupts: 0, sleep_before_read: Vec::new() }
     }
 
     fn next(&mut self, want: usize) -> io::Result<&[u8]> {
@@ -109,6 +111,9 @@ impl ChunkState {
                 self.interrupts += 1;
                 return Err(io::Error::new(io::ErrorKind::WouldBlock, "harness: transient read timeout"));
             }
+        }
+        if let Some((_, ms)) = self.sleep_before_read.iter().find(|(k, _)| *k == self.reads) {
+            std::thread::sleep(std::time::Duration::from_millis(*ms));
         }
         self.reads += 1;
         if self.reads > self.read_limit {
